@@ -57,6 +57,28 @@ def r2_flatten(rule, root=None):
             flat = (f, names, scr, st)
         else:
             wrap = (f, st)
+    if flat is None and len(lits) == 1:
+        # the node is built once, from a (target, matrix) pair that a match over the tree selects
+        st = lits[0]
+        fl = {x["name"]: A.ident(A.strip(x["e"])) for x in st["fields"]}
+        for let_ in A.find(fn["body"], "Let"):
+            p_ = let_["pat"]["pat"] if let_["pat"].get("k") == "PType" else let_["pat"]
+            init = A.strip(let_.get("init")) if let_.get("init") is not None else None
+            if p_.get("k") != "PTuple" or init is None or init.get("k") != "Match":
+                continue
+            names_ = [A.binding_name(e_) for e_ in p_["elems"]]
+            if sorted(names_) != sorted(v for v in fl.values() if v) or len(names_) != 2:
+                continue
+            order = {n_: i_ for i_, n_ in enumerate(names_)}
+            for arm in init["arms"]:
+                tup = A.strip(A.unblock(arm["body"]))
+                if tup.get("k") != "Tuple" or len(tup["elems"]) != 2:
+                    continue
+                f = {fname: str(A.ftxt(tup["elems"][order[var]])) for fname, var in fl.items()}
+                if arm["pat"].get("k") == "PStruct" and (A.path_segs(arm["pat"]["path"]) or [])[-2:] == ["TreeOp", "RemapAffine"]:
+                    flat = (f, A.struct_pat_bindings(arm["pat"]), str(A.ftxt(init["e"])), st)
+                elif arm["pat"].get("k") == "PWild":
+                    wrap = (f, st)
     if flat is None:
         rule.bad("flatten|shape", "remap_affine no longer has a flattening arm for an already-affine tree", A.where(fn))
     else:
@@ -235,7 +257,7 @@ def r4_cache_keys(rule, root=None):
                 rule.ok("seen.%s keyed by (current frame, node pointer)" % c["method"], file=CTX, line=c["ln"])
             else:
                 rule.bad("cache|%s|%d" % (c["method"], n), "the import cache is accessed with key `%s`; a subtree's import depends on the frame it is under, so the key must be %s" % (k, key), A.where(fn, c))
-    if n < 3:
+    if n < 2:
         rule.lost("cache accesses in Context::import (found %d)" % n)
     # the keys are addresses of tree nodes: valid only while the tree being imported is alive, i.e. for one call
     t = A.ftxt(fn["body"])
@@ -256,6 +278,50 @@ def r4_cache_keys(rule, root=None):
         rule.ok("cache lookups and inserts are restricted to Unary / Binary nodes")
     else:
         rule.bad("cache|kinds", "cache lookup/insert must be restricted to Unary / Binary nodes", A.where(fn))
+
+
+def remap_axes_pop_order(arm, axes_n="axes"):
+    """for the Up arm of RemapAxes: which pop (1st, 2nd, 3rd in evaluation order) each component of the pushed
+    frame comes from, e.g. [0, 1, 2] when the frame is (first popped, second, third); None if not understood"""
+    pops = [c for c in A.find(arm["body"], "MethodCall") if c["method"] == "unwrap" and str(A.ftxt(c["recv"])) == "stack.pop()"]
+    pops.sort(key=lambda c: (c.get("ln", 0), c.get("c", 0)))
+    if len(pops) != 3:
+        return None
+    pushes = [c for c in A.find(arm["body"], "MethodCall") if c["method"] == "push" and A.ident(A.strip(c["recv"])) == axes_n and len(c["args"]) == 1]
+    if len(pushes) != 1:
+        return None
+
+    def resolve(e, depth=0):
+        e = A.strip(e)
+        if depth > 4:
+            return None
+        if any(e is p_ for p_ in pops):
+            return e
+        n = A.ident(e)
+        if n:
+            for s_ in A.find(arm["body"], "Let"):
+                p_ = s_["pat"]["pat"] if s_["pat"].get("k") == "PType" else s_["pat"]
+                if s_.get("init") is None:
+                    continue
+                if A.binding_name(p_) == n:
+                    return resolve(s_["init"], depth + 1)
+                if p_.get("k") == "PTuple":
+                    names_ = [A.binding_name(x) for x in p_["elems"]]
+                    init = A.strip(s_["init"])
+                    if n in names_ and init.get("k") == "Tuple" and len(init["elems"]) == len(names_):
+                        return resolve(init["elems"][names_.index(n)], depth + 1)
+        return e if e.get("k") == "Tuple" else None
+
+    frame = resolve(pushes[0]["args"][0])
+    if frame is None or frame.get("k") != "Tuple" or len(frame["elems"]) != 3:
+        return None
+    out = []
+    for el in frame["elems"]:
+        r = resolve(el)
+        if r is None or not any(r is p_ for p_ in pops):
+            return None
+        out.append([i for i, p_ in enumerate(pops) if p_ is r][0])
+    return out
 
 
 def r5_axis_roles(rule, root=None):
@@ -295,6 +361,8 @@ def r5_axis_roles(rule, root=None):
             pops = [A.binding_name(s_["pat"]) for s_ in A.stmts_of(arm["body"]) if s_.get("k") == "Let" and str(A.ftxt(s_.get("init") or {})) == "stack.pop().unwrap()"]
             pushes = [str(A.ftxt(s_)) for s_ in A.stmts_of(arm["body"]) if str(A.ftxt(s_)).startswith("%s.push(" % axes_n)]
             if len(pops) == 3 and None not in pops and pushes == ["%s.push((%s,%s,%s));" % (axes_n, pops[0], pops[1], pops[2])]:
+                ok_axes = True
+            elif remap_axes_pop_order(arm, axes_n) == [0, 1, 2]:
                 ok_axes = True
     if ok_axes:
         rule.ok("RemapAxes: the new frame is (x, y, z) in that order")
